@@ -420,10 +420,18 @@ pub fn t8(prop: &str, seed: u64) -> RunDesc {
     d.threads.push(thread(0, "setup", setup_parent_child(true, true)));
     d.threads.push(thread(1, "age", rounds(rng.below(5) as usize)));
     let mut r = vec![o(K::Pin, 0, 0, 0, 0)];
-    if via_parent {
-        r.extend([o(K::Load, ROOT1, 0, 1, 0), o(K::Load, snap_field(1, 0), 0, 0, 0)]);
-    } else {
-        r.push(o(K::Load, ROOT0, 0, 0, 0));
+    // what the reader holds: 0 a Snapshot, 1 a Snapshot and a WeakSnapshot (from WROOT[0]), 2 only
+    // the WeakSnapshot (C03: the block stays allocated for it)
+    let holds = rng.below(3);
+    if holds != 2 {
+        if via_parent {
+            r.extend([o(K::Load, ROOT1, 0, 1, 0), o(K::Load, snap_field(1, 0), 0, 0, 0)]);
+        } else {
+            r.push(o(K::Load, ROOT0, 0, 0, 0));
+        }
+    }
+    if holds != 0 {
+        r.push(o(K::LoadW, WROOT0, 0, 1, 0));
     }
     r.extend([o(K::DerefSnap, 0, 0, 0, 0), o(K::Signal, 1, 0, 0, 0)]);
     let k = 3 + rng.below(6);
@@ -454,7 +462,7 @@ pub fn t8(prop: &str, seed: u64) -> RunDesc {
     if rng.chance(0.5) {
         d.threads.push(thread(2, "ticker", rounds(2 + rng.below(6) as usize)));
     }
-    d.params = J::obj().set("template", "T8 snapshot under an outer guard across inner reactivations").set("via_parent", via_parent).set("inner_steps", k);
+    d.params = J::obj().set("template", "T8 snapshot under an outer guard across inner reactivations").set("via_parent", via_parent).set("inner_steps", k).set("reader_holds", ["snapshot", "snapshot+weak snapshot", "weak snapshot"][holds as usize]);
     d
 }
 
@@ -471,15 +479,37 @@ pub fn t9(prop: &str, seed: u64) -> RunDesc {
     d.cfg.stall = None;
     let len = *rng.pick(&[150u32, 300, 420, 560, 700, 900]);
     d.cfg.signal_depth = len - *rng.pick(&[3u32, 10, 40, 100]);
-    // tail C (slot 0, highest rank class), extra owner of C in ROOT[0]
-    let mut v = vec![o(K::New, 0, NONE_SLOT, 60_000, 0), o(K::Pin, 0, 0, 0, 0), o(K::Clone, 0, 2, 0, 0), o(K::Store, ROOT0, 2, 0, 0)];
-    for i in 1..len {
-        let (cur, prev) = (i % 2, (i - 1) % 2);
-        v.push(o(K::New, cur, NONE_SLOT, 60_000 - i, 0));
-        v.push(o(K::Store, rc_field(cur, 0), prev, 0, 0));
+    // variant C: the late-stamped node is not the chain's tail but the *second* edge of the root,
+    // whose first edge leads into the long chain: the cascade comes back to it after the whole
+    // chain, several re-pins and clock ticks after it entered the root
+    let second_edge = rng.chance(0.35);
+    let mut v;
+    if second_edge {
+        // C in slot 2 (highest class), extra owner in ROOT[0]; chain in slots 0/1; root R in slot 4
+        v = vec![o(K::New, 2, NONE_SLOT, 60_001, 0), o(K::Pin, 0, 0, 0, 0), o(K::Clone, 2, 3, 0, 0), o(K::Store, ROOT0, 3, 0, 0), o(K::New, 0, NONE_SLOT, 60_000, 0)];
+        for i in 1..len {
+            let (cur, prev) = (i % 2, (i - 1) % 2);
+            v.push(o(K::New, cur, NONE_SLOT, 60_000 - i, 0));
+            v.push(o(K::Store, rc_field(cur, 0), prev, 0, 0));
+        }
+        v.extend([
+            o(K::New, 4, NONE_SLOT, 1, 0),
+            o(K::Store, rc_field(4, 0), (len - 1) % 2, 0, 0),
+            o(K::Store, rc_field(4, 1), 2, 0, 0),
+            o(K::Store, ROOT1, 4, 0, 0),
+            o(K::Unpin, 0, 0, 0, 0),
+        ]);
+    } else {
+        // tail C (slot 0, highest rank class), extra owner of C in ROOT[0]
+        v = vec![o(K::New, 0, NONE_SLOT, 60_000, 0), o(K::Pin, 0, 0, 0, 0), o(K::Clone, 0, 2, 0, 0), o(K::Store, ROOT0, 2, 0, 0)];
+        for i in 1..len {
+            let (cur, prev) = (i % 2, (i - 1) % 2);
+            v.push(o(K::New, cur, NONE_SLOT, 60_000 - i, 0));
+            v.push(o(K::Store, rc_field(cur, 0), prev, 0, 0));
+        }
+        v.push(o(K::Store, ROOT1, (len - 1) % 2, 0, 0));
+        v.push(o(K::Unpin, 0, 0, 0, 0));
     }
-    v.push(o(K::Store, ROOT1, (len - 1) % 2, 0, 0));
-    v.push(o(K::Unpin, 0, 0, 0, 0));
     let mut t = thread(0, "setup", v);
     t.stack_kib = 2048;
     d.threads.push(t);
@@ -553,7 +583,7 @@ pub fn t9(prop: &str, seed: u64) -> RunDesc {
         d.threads.push(t);
     }
     d.cfg.step_cap = 3_000_000;
-    d.params = J::obj().set("template", "T9 late stamp deep inside a long cascade").set("len", len).set("signal_depth", d.cfg.signal_depth).set("hold", hold).set("reader_flushes_inside_cs", flush_inside);
+    d.params = J::obj().set("template", "T9 late stamp deep inside a long cascade").set("len", len).set("signal_depth", d.cfg.signal_depth).set("hold", hold).set("reader_flushes_inside_cs", flush_inside).set("late_node_is_second_edge_of_root", second_edge);
     d
 }
 
@@ -567,7 +597,10 @@ pub fn t10(prop: &str, seed: u64) -> RunDesc {
     let mut d = base(&mut rng, prop, "dir-t10", seed, 5);
     d.cfg.stall = None;
     let prestamp = rng.chance(0.3);
-    d.threads.push(thread(0, "setup", setup_parent_child_ext(true, false, prestamp)));
+    // weak variant (C03): the reader holds only a WeakSnapshot loaded from WROOT[0]; the exiting
+    // thread's destructor releases the last strong owner and then the last Weak
+    let weak_variant = rng.chance(0.35);
+    d.threads.push(thread(0, "setup", setup_parent_child_ext(true, weak_variant, prestamp)));
     d.threads.push(thread(1, "age", rounds(rng.below(6) as usize)));
     let m = 1 + rng.below(4) as usize;
     let m2 = 2 + rng.below(5) as usize;
@@ -581,7 +614,11 @@ pub fn t10(prop: &str, seed: u64) -> RunDesc {
     d.threads.push(thread(
         2,
         "reader",
-        vec![o(K::Await, 3, 0, 0, 0), o(K::Pin, 0, 0, 0, 0), o(K::Load, ROOT0, 0, 0, 0), o(K::DerefSnap, 0, 0, 0, 0), o(K::Signal, 6, 0, 0, 0), o(K::Await, 5, 0, 0, 0), o(K::DerefSnap, 0, 0, 0, 0), o(K::Unpin, 0, 0, 0, 0)],
+        if weak_variant {
+            vec![o(K::Await, 3, 0, 0, 0), o(K::Pin, 0, 0, 0, 0), o(K::LoadW, WROOT0, 0, 1, 0), o(K::Signal, 6, 0, 0, 0), o(K::Await, 5, 0, 0, 0), o(K::WsUpgrade, 1, 0, 0, 0), o(K::Unpin, 0, 0, 0, 0)]
+        } else {
+            vec![o(K::Await, 3, 0, 0, 0), o(K::Pin, 0, 0, 0, 0), o(K::Load, ROOT0, 0, 0, 0), o(K::DerefSnap, 0, 0, 0, 0), o(K::Signal, 6, 0, 0, 0), o(K::Await, 5, 0, 0, 0), o(K::DerefSnap, 0, 0, 0, 0), o(K::Unpin, 0, 0, 0, 0)]
+        },
     ));
     // the exiting thread: registers its handle, then unlinks from its thread-local destructor
     let how = rng.below(3);
@@ -594,10 +631,13 @@ pub fn t10(prop: &str, seed: u64) -> RunDesc {
         1 => tl.extend([o(K::Pin, 0, 0, 0, 0), o(K::Swap, ROOT0, 0, 0, 0), o(K::Unpin, 0, 0, 0, 0), o(K::DropRc, 0, 0, 0, 0)]),
         _ => tl.extend([o(K::Pin, 0, 0, 0, 0), o(K::Swap, ROOT0, 0, 0, 0), o(K::Finalize, 0, 0, 0, 0), o(K::Unpin, 0, 0, 0, 0)]),
     }
+    if weak_variant {
+        tl = vec![o(K::Await, 6, 0, 0, 0), o(K::Pin, 0, 0, 0, 0), o(K::Store, ROOT0, NONE_SLOT, 0, 0), o(K::StoreW, WROOT0, NONE_SLOT, 0, 0), o(K::Unpin, 0, 0, 0, 0)];
+    }
     tl.push(o(K::Signal, 8, 0, 0, 0));
     x.tls_ops = tl;
     d.threads.push(x);
-    d.params = J::obj().set("template", "T10 unlink from a thread-local destructor while a reader is pinned across the cascade").set("rounds_before_reader", m).set("rounds_after_unlink", m2).set("how", how).set("prestamp", prestamp);
+    d.params = J::obj().set("template", "T10 unlink from a thread-local destructor while a reader is pinned across the cascade").set("rounds_before_reader", m).set("rounds_after_unlink", m2).set("how", how).set("prestamp", prestamp).set("weak_variant", weak_variant);
     d
 }
 
@@ -641,6 +681,101 @@ pub fn t11(prop: &str, seed: u64) -> RunDesc {
     d.threads.push(x);
     d.cfg.step_cap = 1_500_000;
     d.params = J::obj().set("template", "T11 thread tear-down on a small stack with a backlog of expired bags").set("garbage_objects", k).set("exit_stack_kib", stack);
+    d
+}
+
+/// T12: an advancer meets several exited participants in the registry during the scan of a
+/// collection round. Unlinking them defers their destruction into its own bag, which (capacity
+/// 2-3) fills up and is sealed in mid-scan; sealing re-announces the advancer at the present
+/// epoch. If another thread advanced the clock before that and a third one advances it again
+/// afterwards, the scan ends with an epoch value two steps old: the clock must not go back to
+/// its successor (C14), and nobody pinned may be passed (C18).
+pub fn t12(prop: &str, seed: u64) -> RunDesc {
+    let mut rng = Rng::new(seed);
+    let mut d = base(&mut rng, prop, "dir-t12", seed, 6);
+    d.cfg.stall = None;
+    d.cfg.max_objects = *rng.pick(&[2u32, 2, 3]);
+    d.cfg.manual_interval = 64;
+    d.cfg.dtor_api = 0;
+    let exiters = 4 + rng.below(9);
+    for _ in 0..exiters {
+        let mut e = vec![o(K::Pin, 0, 0, 0, 0)];
+        if rng.chance(0.3) {
+            e.push(o(K::Defer, 0, rng.below(10) as u32, 0, 0));
+        }
+        e.push(o(K::Unpin, 0, 0, 0, 0));
+        d.threads.push(thread(1, "exiter", e));
+    }
+    let advancers = 3 + rng.below(2);
+    for i in 0..advancers {
+        let mut a = Vec::new();
+        for _ in 0..2 + rng.below(4) {
+            a.extend([o(K::Pin, 0, 0, 0, 0), o(K::Flush, 0, 0, 0, 0), o(K::Unpin, 0, 0, 0, 0)]);
+        }
+        if i == 0 && rng.chance(0.5) {
+            // one of them holds a second guard for a while: a pinned participant the others must respect
+            a.insert(0, o(K::Pin, 1, 0, 0, 0));
+            a.push(o(K::Unpin, 1, 0, 0, 0));
+        }
+        d.threads.push(thread(2, "advancer", a));
+    }
+    d.params = J::obj().set("template", "T12 exited participants unlinked during the scan of a collection round").set("exiters", exiters).set("advancers", advancers);
+    d
+}
+
+/// T13: bounded liveness of collection while one participant stays pinned. A producer leaves
+/// 20-60 flushed bags of deferred functions and exits; the clock is advanced past their expiry
+/// without collecting; then a laggard pins and stays, and a worker makes bags/16 + 6
+/// pin/flush/unpin rounds: every one of those functions has expired and must have run by then,
+/// whether or not the clock can still move (C15: "after finitely many further rounds by any
+/// surviving thread").
+pub fn t13(prop: &str, seed: u64) -> RunDesc {
+    let mut rng = Rng::new(seed);
+    let mut d = base(&mut rng, prop, "dir-t13", seed, 4);
+    d.cfg.stall = None;
+    d.cfg.max_objects = *rng.pick(&[2u32, 3, 4, 8]);
+    d.cfg.manual_interval = 64;
+    d.cfg.dtor_api = 0;
+    let bags = 20 + rng.below(41) as u32;
+    let per = 1 + rng.below(d.cfg.max_objects.min(3) as u64) as u32;
+    let mut p = Vec::new();
+    for _ in 0..bags {
+        p.push(o(K::Pin, 0, 0, 0, 0));
+        for _ in 0..per {
+            p.push(o(K::Defer, 0, rng.below(10) as u32, 0, 0));
+        }
+        p.extend([o(K::Flush, 0, 0, 0, 0), o(K::Unpin, 0, 0, 0, 0)]);
+    }
+    p.push(o(K::Signal, 1, 0, 0, 0));
+    p.insert(0, o(K::Await, 4, 0, 0, 0));
+    d.threads.push(thread(1, "producer", p));
+    // hold the clock still while the producer works, so that nothing is collected on the way
+    d.threads.push(thread(1, "holder", vec![o(K::Pin, 0, 0, 0, 0), o(K::Signal, 4, 0, 0, 0), o(K::Await, 1, 0, 0, 0), o(K::Unpin, 0, 0, 0, 0)]));
+    let mut adv = Vec::new();
+    for _ in 0..4 + rng.below(2) {
+        adv.extend([o(K::Pin, 0, 0, 0, 0), o(K::TryAdvance, 0, 0, 0, 0), o(K::Unpin, 0, 0, 0, 0)]);
+    }
+    d.threads.push(thread(2, "advance", adv));
+    d.threads.push(thread(3, "laggard", vec![o(K::Pin, 0, 0, 0, 0), o(K::Signal, 2, 0, 0, 0), o(K::Await, 3, 0, 0, 0), o(K::Unpin, 0, 0, 0, 0)]));
+    let rounds_n = bags / 16 + 6 + bags / 2;
+    let mut w = vec![o(K::Await, 2, 0, 0, 0)];
+    for _ in 0..rounds_n {
+        w.extend([o(K::Pin, 0, 0, 0, 0), o(K::Flush, 0, 0, 0, 0), o(K::Unpin, 0, 0, 0, 0)]);
+    }
+    w.extend([o(K::CheckDeferred, bags * per, 0, 0, 0), o(K::Signal, 3, 0, 0, 0)]);
+    // variant: the worker's rounds run in its thread-local destructor, after its handle is gone
+    let worker_in_tls = rng.chance(0.4);
+    if worker_in_tls {
+        let mut t = thread(3, "worker", vec![o(K::Pin, 0, 0, 0, 0), o(K::Unpin, 0, 0, 0, 0)]);
+        t.tls_mode = 1;
+        t.exit_mode = 0;
+        t.tls_ops = w;
+        d.threads.push(t);
+    } else {
+        d.threads.push(thread(3, "worker", w));
+    }
+    d.cfg.step_cap = 1_500_000;
+    d.params = J::obj().set("template", "T13 expired bags are collected while a participant stays pinned").set("bags", bags).set("functions", bags * per).set("worker_rounds", rounds_n).set("worker_in_tls_destructor", worker_in_tls);
     d
 }
 
